@@ -156,8 +156,14 @@ def pyInt (s : Bytes) : Option Int :=
 def strictNat (s : Bytes) : Option Nat :=
   if s.isEmpty || !s.all isDigit then none else some (s.foldl (fun v c => v * 10 + (c.toNat - 48)) 0)
 
-/-- decimal rendering (`str(n)`) -/
-def natDigits (n : Nat) : Bytes := (toString n).toList.map (fun c => UInt8.ofNat c.toNat)
+/-- decimal rendering (`str(n)`), most significant digit first; `fuel` bounds the number of digits -/
+def natDigitsGo : Nat → Nat → Bytes → Bytes
+  | 0, _, acc => acc
+  | fuel + 1, n, acc =>
+    if n < 10 then UInt8.ofNat (48 + n) :: acc
+    else natDigitsGo fuel (n / 10) (UInt8.ofNat (48 + n % 10) :: acc)
+
+def natDigits (n : Nat) : Bytes := natDigitsGo (n + 1) n []
 
 /-! ### UTF-8 (what `bytes.decode("utf8")` accepts, and `str.encode("utf8")` of a Latin-1 string) -/
 
